@@ -93,7 +93,8 @@ Record cfg := mkcfg {
   comps : list (string * vec);        (* _group_mol_compositions *)
   wcomps : list (string * vec);       (* _group_wt_compositions *)
   mws : vec;                          (* MW *)
-  nchem : nat }.                      (* size *)
+  nchem : nat;                        (* size *)
+  cass : list string }.               (* CASs *)
 
 Definition mem_str (s : string) (l : list string) : bool := existsb (String.eqb s) l.
 
@@ -139,7 +140,7 @@ Definition base_table (cs : list chem) : table :=
             (enum_from 0 (map ccas cs) ++ enum_from 0 (map cid cs)) [].
 Definition compile (cs : list chem) : res cfg :=
   do t <- compile_aliases cs (base_table cs) cs;
-  Ok (mkcfg t [] [] (map cmw cs) (length cs)).
+  Ok (mkcfg t [] [] (map cmw cs) (length cs) (map ccas cs)).
 
 Definition is_str_key (k : key) : bool := match k with KStr _ => true | _ => false end.
 
@@ -179,7 +180,7 @@ Definition define_group (c : cfg) (name : string) (ids : list string) (comp : op
            let cm := if wt then map2 Qdiv comp0 mwi else comp0 in
            let cw := if wt then comp0 else vmul comp0 mwi in
            (mkcfg (tset (tb c) name (Grp idx)) ((name, vdivs cm (qsum cm)) :: comps c)
-                  ((name, vdivs cw (qsum cw)) :: wcomps c) (mws c) (nchem c), None)
+                  ((name, vdivs cw (qsum cw)) :: wcomps c) (mws c) (nchem c) (cass c), None)
        end.
 
 Inductive cop :=
@@ -188,7 +189,7 @@ Inductive cop :=
 
 Definition cstep (c : cfg) (o : cop) : cfg * option err :=
   match o with
-  | CAlias id a => let (t, e) := set_alias (tb c) id a in (mkcfg t (comps c) (wcomps c) (mws c) (nchem c), e)
+  | CAlias id a => let (t, e) := set_alias (tb c) id a in (mkcfg t (comps c) (wcomps c) (mws c) (nchem c) (cass c), e)
   | CGroup n ids cp wt => define_group c n ids cp wt
   end.
 Fixpoint cbuild (c : cfg) (ops : list cop) : cfg * list (option err) :=
@@ -1013,3 +1014,141 @@ Definition cpos (n : nat) (ci : cindex) : list nat :=
 (* the names of the chemicals, as the configuration calls define them *)
 Definition chem_names (all : list chem) (c : chem) : list string :=
   cid c :: ccas c :: filter (fun n => negb (repeated all n)) (cnames c).
+
+(* ------------------------------------------------------------------ several property packages
+   Every CompiledChemicals object has its own _index_cache, and MaterialIndexer._index_caches is keyed by
+   (phases, chemicals): the packages are independent machines.  An indexer belongs to one package at a time;
+   reset_chemicals moves it (data re-mapped by CAS number) and, for a MaterialIndexer, re-binds its cache to the one
+   registered for (its phases, the NEW chemicals). *)
+Definition dflt_cfg : cfg := mkcfg [] [] [] [] 0 [].
+Definition dflt_st : state := mkst [] [] [].
+
+Record mstate := mkms {
+  mpk : list state;                 (* per package: its caches and the indexers currently on it (moved-away slots stay) *)
+  mwhere : list (nat * nat) }.      (* global indexer number -> (package, slot) *)
+
+Definition op_ix (o : op) : option nat :=
+  match o with
+  | OGet i _ | OSet i _ _ | OMix i _ _ | OGetMass i _ | OSetMass i _ _
+  | OMixPhase i _ _ | OCopyPhase i _ _ | OMixMat i _ | OCopyMat i _ => Some i
+  | OOverlap _ | OIndex _ => None
+  end.
+Definition op_at (o : op) (j : nat) : op :=
+  match o with
+  | OGet _ k => OGet j k | OSet _ k d => OSet j k d | OMix _ c v => OMix j c v
+  | OGetMass _ k => OGetMass j k | OSetMass _ k d => OSetMass j k d
+  | OMixPhase _ p v => OMixPhase j p v | OCopyPhase _ p v => OCopyPhase j p v
+  | OMixMat _ x => OMixMat j x | OCopyMat _ x => OCopyMat j x
+  | OOverlap c => OOverlap c | OIndex k => OIndex k
+  end.
+
+(* `for CAS, value in zip(old.CASs, old_data): if value: data[new.index(CAS)] = value` *)
+Fixpoint remap_row (t' : table) (cas : list string) (row : vec) (acc : vec) : res vec :=
+  match cas, row with
+  | c :: cr, x :: xr =>
+      if qzerob x then remap_row t' cr xr acc
+      else match tget t' c with
+           | Some (Pos i) => remap_row t' cr xr (wr acc i x)
+           | Some (Grp _) => Err EOther
+           | None => Err EKey
+           end
+  | _, _ => Ok acc
+  end.
+
+Inductive mop :=
+| MOp (o : op)                      (* an operation of the single-package machine; indexers are numbered globally *)
+| MOpAt (pk : nat) (o : op)         (* index_overlap / get_index on the chemicals of package pk *)
+| MReset (g : nat) (pk : nat).      (* indexer g .reset_chemicals(chemicals of package pk) *)
+
+Definition mstep (vr : variant) (cs : list cfg) (ms : mstate) (o : mop) : mstate * obs :=
+  match o with
+  | MOp o =>
+      match op_ix o with
+      | Some g =>
+          match nth_error (mwhere ms) g with
+          | Some (pk, li) =>
+              let (s', b) := step vr (nth pk cs dflt_cfg) (nth pk (mpk ms) dflt_st) (op_at o li) in
+              (mkms (upd (mpk ms) pk s') (mwhere ms), b)
+          | None => (ms, BErr EOther)
+          end
+      | None =>
+          let (s', b) := step vr (nth O cs dflt_cfg) (nth O (mpk ms) dflt_st) o in
+          (mkms (upd (mpk ms) O s') (mwhere ms), b)
+      end
+  | MOpAt pk o =>
+      match op_ix o with
+      | Some _ => (ms, BErr EOther)
+      | None =>
+          let (s', b) := step vr (nth pk cs dflt_cfg) (nth pk (mpk ms) dflt_st) o in
+          (mkms (upd (mpk ms) pk s') (mwhere ms), b)
+      end
+  | MReset g pk' =>
+      match nth_error (mwhere ms) g with
+      | Some (pk, li) =>
+          let c := nth pk cs dflt_cfg in
+          let c' := nth pk' cs dflt_cfg in
+          let tgt := nth pk' (mpk ms) dflt_st in
+          let place (x : ixr) (rows : list vec) :=
+            (mkms (upd (mpk ms) pk' (mkst (scc tgt) (smc tgt) (sixs tgt ++ [x])))
+                  (upd (mwhere ms) g (pk', length (sixs tgt))), BWr None rows) in
+          if Nat.leb (length cs) pk' then (ms, BErr EOther)
+          else
+          match nth_error (sixs (nth pk (mpk ms) dflt_st)) li with
+          | Some (IC d) =>
+              match remap_row (tb c') (cass c) d (vzero (nchem c')) with
+              | Ok d' => place (IC d') [d']
+              | Err e => (ms, BErr e)
+              end
+          | Some (IM phs rows) =>
+              match res_all (map (fun r => remap_row (tb c') (cass c) r (vzero (nchem c'))) rows) with
+              | Ok rows' => place (IM phs rows') rows'
+              | Err e => (ms, BErr e)
+              end
+          | None => (ms, BErr EOther)
+          end
+      | None => (ms, BErr EOther)
+      end
+  end.
+
+Fixpoint mrun (vr : variant) (cs : list cfg) (ms : mstate) (ops : list mop) : mstate * list obs :=
+  match ops with
+  | [] => (ms, [])
+  | o :: r => let (ms', b) := mstep vr cs ms o in let (ms'', bs) := mrun vr cs ms' r in (ms'', b :: bs)
+  end.
+
+(* all indexers start on package 0 *)
+Definition minit (npk : nat) (ixs : list ixr) : mstate :=
+  mkms (mkst [] [] ixs :: repeat dflt_st (npk - 1)) (map (fun g => (O, g)) (seq 0 (length ixs))).
+
+Definition build_pkg (spec : list chem * list cop) : cfg * list (option err) :=
+  match compile (fst spec) with
+  | Ok c0 => cbuild c0 (snd spec)
+  | Err _ => (dflt_cfg, [])
+  end.
+
+(* the whole case with several packages: package 0 is checked in full (table, compositions), the others through
+   their configuration-call outcomes and everything observed in the history; final caches of every package *)
+Definition mcase_eqb (vr : variant) (chems : list chem) (cops : list cop)
+           (compile_err : option err) (cop_errs : list (option err))
+           (exp_table : list (string * target)) (absent : list string) (exp_comps exp_wcomps : list (string * vec))
+           (others : list (list chem * list cop)) (other_errs : list (list (option err)))
+           (ixs : list ixr) (ops : list mop) (exp_obs : list obs)
+           (exp_cc : list ccache) (exp_mc : list (nat * (list string * mcache))) : bool :=
+  match compile chems with
+  | Err e => opt_eqb err_eqb (Some e) compile_err
+  | Ok c0 =>
+      match compile_err with
+      | Some _ => false
+      | None =>
+          let (c, es) := cbuild c0 cops in
+          let built := map build_pkg others in
+          let cs := c :: map fst built in
+          let (ms, bs) := mrun vr cs (minit (length cs) ixs) ops in
+          list_eqb (opt_eqb err_eqb) es cop_errs
+          && list_eqb (list_eqb (opt_eqb err_eqb)) (map snd built) other_errs
+          && table_agrees (tb c) exp_table absent && comps_agree (comps c) exp_comps && comps_agree (wcomps c) exp_wcomps
+          && list_eqb obs_eqb bs exp_obs
+          && list_eqb ccache_eqb (map scc (mpk ms)) exp_cc
+          && forallb (fun pc => mcache_eqb (mc_get (smc (nth (fst pc) (mpk ms) dflt_st)) (fst (snd pc))) (snd (snd pc))) exp_mc
+      end
+  end.
